@@ -594,7 +594,7 @@ def nontrivial(c):
 
 
 def run(ctx, cases):
-    results = C.run_impl('address_driver', {'cases': cases}, nshards=8)
+    results = C.run_impl('address_driver', {'cases': cases}, nshards=6)
     # 'same' expectation: the all-upper-case string must decode to what the lower-case string decodes to
     low = {}
     for c, r in zip(cases, results):
